@@ -143,6 +143,7 @@ def run_case(c):
         red.location = f"wss://{c['host']}:{tport}/tls".encode()
         url = f"ws://{c['host']}:{red.port}/start"
     raised, ws = None, None
+    reported_tls = None
     import websocket._http as _H
 
     had_ssl = getattr(_H, "HAVE_SSL", None)
@@ -170,6 +171,10 @@ def run_case(c):
         finally:
             if ws is not None:
                 try:
+                    reported_tls = ws.is_ssl()  # what the object tells the application about its own transport
+                except Exception:  # noqa: BLE001
+                    reported_tls = "raised"
+                try:
                     ws.shutdown()
                 except Exception:  # noqa: BLE001
                     pass
@@ -193,6 +198,9 @@ def run_case(c):
         obs.cls = ("scheme-case", "refused")
         obs.nt = repr(sorted(c.items()))
         return obs
+    if raised is None and ws is not None and reported_tls is not (c["scheme"] == "wss"):
+        # (with a redirect the scheme of the final hop counts: wss in every redirect case generated here)
+        obs.fail(f"{c['scheme']}|is_ssl-disagrees-with-the-transport", f"is_ssl() = {reported_tls!r} on a connection whose target is {c['scheme']}://; via={via} cfg={c}")
     if via:
         return _judge_redirect(c, obs, rig, target, before, raised, url)
     # how many connections each endpoint has to report: those the client's connect() calls completed (a call that
